@@ -836,13 +836,49 @@ def tuner_targets():
             Target('step_less', [less], H_T, cbmc_flags=CADICAL)]
 
 
+def init_list_hook(P, n):
+    """igrids_t{x}: a vector built from a one-element initializer list"""
+    if n.get('kind') in ('CXXTemporaryObjectExpr', 'CXXConstructExpr') and n.get('inner') and \
+            n['inner'][0].get('kind') == 'CXXStdInitializerListExpr':
+        try:
+            c = P.ctype(n['type'])
+        except Exception:
+            return None
+        if c != 'struct nv_igrids':
+            return None
+        lists = [x for x in astload.walk(n['inner'][0]) if x.get('kind') == 'InitListExpr']
+        if len(lists) != 1 or len(lists[0].get('inner', [])) != 1:
+            raise astload.ExtractionError('igrids_t{...}: only one-element initializer lists are modelled')
+        P.note('igrids_t{x} -> nv_igrids_single(x)')
+        return f'nv_igrids_single({P.expr(lists[0]["inner"][0])})'
+    return None
+
+
+def optimize_targets():
+    import hooks
+    types = TYPES_T + [(r'^nano::tuner_t$|^nano::local_search_tuner_t$', 'struct nv_tuner')]
+    calls = [(r'^evaluate\|', 'tuner_evaluate!'), (r'^local_search\|', 'tuner_local_search'),
+             (r'^make_(min|max|avg)_igrid\|', 'nv_make_igrid'), (r'^operator->\|.*__normal_iterator', 'nv_steps_iter_arrow({0})'),
+             (r'^ctor\|(nano::tuner_steps_t|std::vector<nano::tuner_step_t>)\|void \(\)', 'nv_steps_empty()')]
+    members = [(r'^empty\|.*param_space_t', 'nv_spaces_empty({self})'), (r'^empty\|.*tuner_step_t', '({self}->n == 0)'),
+               (r'^size\|.*tuner_step_t', '((uint64_t)({self}->n))'), (r'^begin\|.*tuner_step_t', 'nv_steps_begin({self})'),
+               (r'^do_optimize\|', 'tuner_do_optimize!')]
+    common = dict(self_struct='struct nv_tuner', types=types, calls=calls, members=members,
+                  hooks=[hooks.param_hook(), init_list_hook])
+    opt = Fn('tuner_optimize', 'src/tuner.cpp', 'optimize', flt='tuner_t::optimize', **common)
+    dop = Fn('tuner_do_optimize', 'src/tuner/local.cpp', 'do_optimize', flt='local_search_tuner_t::do_optimize', **common)
+    return [Target('optimize', [opt], 'specs/C13/optimize.h', replace=['tuner_evaluate', 'tuner_local_search', 'tuner_do_optimize'],
+                   cbmc_flags=CADICAL),
+            Target('do_optimize', [dop], 'specs/C13/opt_common.h', replace=['tuner_evaluate', 'tuner_local_search'], cbmc_flags=CADICAL)]
+
+
 def build(tier):
     vcs, fns = result_vcs()
     v2, f2 = tune_vcs()
     vcs += v2 + lemmas()
     fns += f2
     return {
-        'targets': result_targets() + tuner_targets(), 'vcs': vcs, 'functions': fns,
+        'targets': result_targets() + tuner_targets() + optimize_targets(), 'vcs': vcs, 'functions': fns,
         'decided': [],
         'not_decided': [],
         'assumptions': [],
